@@ -192,8 +192,8 @@ Unit("C15", "select_window_degen[random NB<=8]", concrete=_swd_random,
 
 
 # ------------------------------------------------------------------ Tabulator.__call__ : per-group averaging
-def _tab_unit(ibands, kramers):
-    @unit("C15", "Tabulator.__call__[ibands=%s,Kramers=%s]" % (ibands, kramers), scope="shape:2 k-points, 4 bands, two block layouts", expect_min=3)
+def _tab_unit(ibands, kramers, prop="C15"):
+    @unit(prop, "Tabulator.__call__[ibands=%s,Kramers=%s]" % (ibands, kramers), scope="shape:2 k-points, 4 bands, two block layouts", expect_min=3)
     def _t(U):
         import numpy as rnp
         from pyvc.npshim import Shim, sym_real_array
@@ -259,3 +259,4 @@ _tab_unit(None, False)
 _tab_unit(None, True)
 _tab_unit([1, 3], True)
 _tab_unit([0, 2, 3], False)
+_tab_unit([2, 0, 3], False)          # a selection that is not ascending: column j is band ibands[j]
